@@ -6,7 +6,8 @@ byte for byte under the same relative names — for every file size relative to 
 size ≥ 1, nested and empty directories — and a name filter excludes exactly the entries it rejects.
 
 Only property theorems and non-vacuity examples (namespace Rpyc.Props.C20).  Model:
-RpycModel/Files/Model.lean (`download` is `upload` with the sides swapped); lemmas:
+RpycModel/Files/Model.lean (`download…` transcribed separately and proved equal to `upload…`); lemmas (and the
+definitional `invalid_top_level`, `top_level_not_filtered`):
 RpycModel/Files/Lemmas.lean.  No bound on file sizes, tree depth or width.
 -/
 namespace Rpyc.Props.C20
@@ -27,10 +28,17 @@ theorem transfer_eq_prune (chunk : Nat) (hc : 1 ≤ chunk) (f : Filter) (ignoreI
     upload chunk f ignoreInvalid t = outcome ignoreInvalid (prune f t) :=
   upload_eq chunk hc f ignoreInvalid t
 
-/-- the same for `download` -/
+/-- **`download` does what `upload` does.** `download` / `download_dir` / `download_file` are transcribed on
+their own (remote `isdir`/`isfile`/`listdir`/`read`, local `makedirs`/`write`); for every tree, filter, chunk
+size and `ignore_invalid` they produce what the upload functions produce … -/
+theorem download_is_upload (chunk : Nat) (f : Filter) (ignoreInvalid : Bool) (t : Tree) :
+    download chunk f ignoreInvalid t = upload chunk f ignoreInvalid t :=
+  download_eq_upload chunk f ignoreInvalid t
+
+/-- … hence the same pruned tree -/
 theorem download_eq_prune (chunk : Nat) (hc : 1 ≤ chunk) (f : Filter) (ignoreInvalid : Bool) (t : Tree) :
-    download chunk f ignoreInvalid t = outcome ignoreInvalid (prune f t) :=
-  upload_eq chunk hc f ignoreInvalid t
+    download chunk f ignoreInvalid t = outcome ignoreInvalid (prune f t) := by
+  rw [download_eq_upload]; exact upload_eq chunk hc f ignoreInvalid t
 
 /-- **Path by path**: whatever `upload` leaves at the destination consists of exactly those files — same
 relative path, same bytes — and directories (empty ones included) of the source all of whose path
@@ -59,17 +67,6 @@ theorem transfer_no_filter_identity (chunk : Nat) (hc : 1 ≤ chunk) (ignoreInva
     (hr : regular t = true) : upload chunk none ignoreInvalid t = .ok (some t) := by
   rw [transfer_eq_prune chunk hc, prune_none_regular t hr]
   rfl
-
-/-- a path that is neither a directory nor a regular file: `ValueError`, unless `ignore_invalid` (then
-nothing is created); inside a tree such entries are skipped -/
-theorem invalid_top_level (chunk : Nat) (f : Filter) :
-    upload chunk f false .other = .error .valueError ∧ upload chunk f true .other = .ok none := by
-  simp [upload]
-
-/-- the filter sees the entry's name, never the top-level path: a single file is always transferred -/
-theorem top_level_not_filtered (chunk : Nat) (hc : 1 ≤ chunk) (f : Filter) (ii : Bool) (b : Bytes) :
-    upload chunk f ii (.file b) = .ok (some (.file b)) := by
-  rw [transfer_eq_prune chunk hc]; rfl
 
 /-! ### histories: a transfer onto a name that already exists -/
 
@@ -103,6 +100,22 @@ theorem second_transfer_replaces_first (chunk : Nat) (hc : 1 ≤ chunk) (f : Fil
   refine ⟨?_, last_transfer_wins chunk hc f ii b pa pb hdb hpb hs⟩
   rw [uploadOver_absent chunk hc f ii a hda, hpa]; rfl
 
+/-- **A transfer onto ANY destination** (absent, a file, a directory with whatever in it): the result is the
+source pruned by the filter, laid over what was there — files replace files whatever their size or age,
+directories are merged entry by entry, entries only the destination has stay; a regular file where a
+directory is needed raises `FileExistsError` (from `makedirs`), a directory where a file is to be written
+`IsADirectoryError` (from `open`). -/
+theorem transfer_onto_any_destination (chunk : Nat) (hc : 1 ≤ chunk) (f : Filter) (ii : Bool) (t : Tree)
+    (dst : Option Tree) : uploadOver chunk f ii t dst = overSpec f ii t dst :=
+  uploadOver_eq_overlay chunk hc f ii t dst
+
+/-- **A filter object that is falsy is no filter** (the code tests `not filter or filter(fn)`): a callable
+defining `__bool__`/`__len__` as false is ignored and everything is transferred, whatever it would reject.
+With a truthy callable the filter is its predicate. -/
+theorem falsy_filter_is_no_filter (p : Name → Bool) :
+    effective (some ⟨false, p⟩) = none ∧ effective (some ⟨true, p⟩) = some p ∧ effective none = none :=
+  ⟨rfl, rfl, rfl⟩
+
 /-- the default chunk size of every transfer function, as found in the source, is ≥ 1: transfers that do
 not pass `chunk_size` are covered by the theorems above (regenerated from /repo on every run) -/
 theorem default_chunk_sizes_copy_exactly :
@@ -121,41 +134,42 @@ theorem transfer_functions_are_modelled :
 
 /-! ### non-vacuity -/
 
-def rejectSuffix (s : String) : Filter := some (fun n => !n.endsWith s)
+def rejectSuffix (s : String) : Filter := some (fun n => !(nm s).isSuffixOf n)
 
 /-- nested tree with an empty directory, a rejected file, a rejected directory and a fifo -/
 def sample : Tree :=
-  .dir (.cons "a.txt" (.file [1, 2, 3]) (.cons "empty" (.dir .nil) (.cons "b.tmp" (.file [9])
-    (.cons "sub" (.dir (.cons "c.txt" (.file []) (.cons "fifo" .other (.cons "d.tmp" (.dir (.cons "x" (.file [7]) .nil)) .nil))))
+  .dir (.cons (nm "a.txt") (.file [1, 2, 3]) (.cons (nm "empty") (.dir .nil) (.cons (nm "b.tmp") (.file [9])
+    (.cons (nm "sub") (.dir (.cons (nm "c.txt") (.file []) (.cons (nm "fifo") .other (.cons (nm "d.tmp") (.dir (.cons (nm "x") (.file [7]) .nil)) .nil))))
       .nil))))
 
 example : upload 2 (rejectSuffix ".tmp") false sample
-    = .ok (some (.dir (.cons "a.txt" (.file [1, 2, 3]) (.cons "empty" (.dir .nil)
-        (.cons "sub" (.dir (.cons "c.txt" (.file []) .nil)) .nil))))) := by
+    = .ok (some (.dir (.cons (nm "a.txt") (.file [1, 2, 3]) (.cons (nm "empty") (.dir .nil)
+        (.cons (nm "sub") (.dir (.cons (nm "c.txt") (.file []) .nil)) .nil))))) := by
   have hp : prune (rejectSuffix ".tmp") sample
-      = some (.dir (.cons "a.txt" (.file [1, 2, 3]) (.cons "empty" (.dir .nil)
-          (.cons "sub" (.dir (.cons "c.txt" (.file []) .nil)) .nil)))) := by decide +kernel
+      = some (.dir (.cons (nm "a.txt") (.file [1, 2, 3]) (.cons (nm "empty") (.dir .nil)
+          (.cons (nm "sub") (.dir (.cons (nm "c.txt") (.file []) .nil)) .nil)))) := by decide +kernel
   rw [transfer_eq_prune 2 (by omega), hp]
   rfl
 
 example : (items [] sample).filter (keeps (rejectSuffix ".tmp") 0)
-    = [.dirAt [], .fileAt ["a.txt"] [1, 2, 3], .dirAt ["empty"], .dirAt ["sub"], .fileAt ["sub", "c.txt"] []] := by
+    = [.dirAt [], .fileAt [nm "a.txt"] [1, 2, 3], .dirAt [nm "empty"], .dirAt [nm "sub"], .fileAt [nm "sub", nm "c.txt"] []] := by
   decide +kernel
 
-example : regular (.dir (.cons "e" (.dir .nil) (.cons "f" (.file [0, 255]) .nil))) = true := by decide
+example : regular (.dir (.cons (nm "e") (.dir .nil) (.cons (nm "f") (.file [0, 255]) .nil))) = true := by decide
 
 /-- a history: version 1, then version 2 with a same-size file changed, then version 1 again (roll-back) -/
 example :
-    uploadOver 2 none false (.dir (.cons "f" (.file [9, 9, 9]) (.cons "d" (.dir (.cons "g" (.file [5]) .nil)) .nil)))
-        (some (.dir (.cons "f" (.file [1, 2, 3]) (.cons "d" (.dir (.cons "g" (.file [4]) .nil)) .nil))))
-      = .ok (some (.dir (.cons "f" (.file [9, 9, 9]) (.cons "d" (.dir (.cons "g" (.file [5]) .nil)) .nil)))) :=
+    uploadOver 2 none false (.dir (.cons (nm "f") (.file [9, 9, 9]) (.cons (nm "d") (.dir (.cons (nm "g") (.file [5]) .nil)) .nil)))
+        (some (.dir (.cons (nm "f") (.file [1, 2, 3]) (.cons (nm "d") (.dir (.cons (nm "g") (.file [4]) .nil)) .nil))))
+      = .ok (some (.dir (.cons (nm "f") (.file [9, 9, 9]) (.cons (nm "d") (.dir (.cons (nm "g") (.file [5]) .nil)) .nil)))) :=
   last_transfer_wins 2 (by omega) none false _ _ _ (by decide) (by decide +kernel) (by decide)
 
 /-- an entry the destination has and the new source has not stays (directories are merged, not mirrored) -/
 example :
-    uploadOver 2 none false (.dir (.cons "f" (.file [9]) .nil)) (some (.dir (.cons "old" (.file [1]) (.cons "f" (.file [2]) .nil))))
-      = .ok (some (.dir (.cons "old" (.file [1]) (.cons "f" (.file [9]) .nil)))) := by
-  simp [uploadOver, uploadDirOver, passes, Entries.find, Entries.set, copyFile, copyLoop]
+    uploadOver 2 none false (.dir (.cons (nm "f") (.file [9]) .nil)) (some (.dir (.cons (nm "old") (.file [1]) (.cons (nm "f") (.file [2]) .nil))))
+      = .ok (some (.dir (.cons (nm "old") (.file [1]) (.cons (nm "f") (.file [9]) .nil)))) := by
+  have h : nm "old" ≠ nm "f" := by decide
+  simp [uploadOver, uploadDirOver, passes, Entries.find, Entries.set, copyFile, copyLoop, h]
 
 /-- sizes around the chunk size, computed by the loop itself (chunk 3: 0, 1, 2, 3, 4, 6, 10 bytes) -/
 example : (List.map (fun n => copyFile 3 (List.range n)) [0, 1, 2, 3, 4, 6, 10])
